@@ -2,7 +2,6 @@ package main
 
 import "math/rand"
 
-func (s *Scen) blockHistories(tier string, rng *rand.Rand) []*History   { return nil }
 func (s *Scen) exitHistories(tier string, rng *rand.Rand) []*History    { return nil }
 func (s *Scen) pslashHistories(tier string, rng *rand.Rand) []*History  { return nil }
 func (s *Scen) aslashHistories(tier string, rng *rand.Rand) []*History  { return nil }
